@@ -167,7 +167,7 @@ def _stage_hook(qualname, okfn, resfn, label):
         stages = list(o.fields['stages'])
         if okfn is not None:
             stages.append((okfn(t, *_flags(I, fl)), _raise_protocol))
-        return new_hdr(I, resfn(t) if resfn else t, stages)
+        return new_hdr(I, resfn(t) if resfn is not None else t, stages)
     return h
 
 
